@@ -449,4 +449,25 @@ PROPS = {
             sub("chol", "c14_simustat", 200, 3000, qsize=20, qw=1, tw=2),
             sub("law", "c14_simustat", 200, 4000, qsize=20, qw=2, tw=4),
         ]),
+    "C17": dict(
+        level="exploration",
+        cap_s=dict(quick=300, thorough=3000),
+        rule=("rapidcheck-generated experimental variograms (sampled from a known model + multiplicative noise, or computed from simtub data; 1-3 variables, 1-3 "
+              "directions in 2-D/3-D, emptied lags, negative cross-values) and variogram maps x structure lists from 17 fit-capable types x consistent generated "
+              "Constraints (ConsItems, constant sill) x every Option_VarioFit / Option_AutoFit flag; entry points Model::fit, model_fitting_sills / "
+              "ModelOptimSillsVario::fit, Model::fitFromVMap. Validity oracle only when the fit returns success (a refusal is acceptable and counted): every sill "
+              "matrix symmetric with lambda_min >= -1e-8 trace (own Jacobi eigenvalues), ranges/scales > 0 and finite, every user constraint satisfied within 1e-6, "
+              "documented option flags respected, Model::isValid(), save -> reload -> same getters, kriging a small Db with the fitted model returns 0 with finite "
+              "estimates and stdev >= 0; the call ends within 60 s of CPU; non-trivial = nvar >= 2 or >= 1 user constraint or >= 2 directions (fit_vmap: always); "
+              "distinct = hash of (dimensions, directions, structure list, constraints, options, seeds)"),
+        assumptions=["a non-zero return of fit / fitFromVMap / model_fitting_sills is an acceptable outcome",
+                     "a ConsItem on a parameter that the options remove from the inference is not asserted; a lock asked by the caller counts as set",
+                     "lock_rot2d asserted only when the first direction is horizontal; lock_no3d and flag_intrinsic have no asserted predicate",
+                     "kriging asserted only for well-posed systems; maxiter <= 100",
+                     "regions that abort the process today (recorded findings: flag_intrinsic, MATERN in the fitted list, sills-only entry points with empty lags) are not generated (C17_ENABLE re-opens them)"],
+        subs=[
+            sub("fit_vario", "c17_fit", 160, 8000, qw=8, tw=16),
+            sub("fit_sills", "c17_fit", 1200, 40000, qw=2, tw=4),
+            sub("fit_vmap", "c17_fit", 36, 3000, qw=6, tw=12),
+        ]),
 }
